@@ -702,6 +702,13 @@ class LevelOverhangByConstituency:
             }
             for cty, cty_prop_seats in cty_results.items()
         })
+        # First round seats of a second round party in a constituency where it
+        # gets no proportional seat count towards its minimum as well.
+        for cty, cty_gains in prev_gains.items():
+            cty_prop_seats = cty_results.get(cty, {})
+            for party, prev_gain in cty_gains.items():
+                if party in lowest_allowed and party not in cty_prop_seats:
+                    lowest_allowed[party] += prev_gain
         # If any party did not make it to the second round, subtract
         # its first round result from the total number of seats when
         # determining the proportional national result, add them back at the
